@@ -24,29 +24,35 @@ class Frag:
 
 
 def lookup_fragments(P, fname):
-    """fragments of the (first) probe loop of fname"""
+    """fragments of the (first) probe loop of fname.  Everything is read off canonical forms with single-definition locals
+    expanded and `(&a[i])->f` folded to `a[i].f`, so it does not matter whether the stored hash, the probed slot or the probe
+    distance are held in locals (h, slot, p) or spelled out at each use."""
     fn = P.fn(fname)
     g = P.cfg(fn)
-    N = util.Norm(P, fn, inline=False)
+    NX = util.Norm(P, fn, expand_locals=True, inline=False)
     F = Frag()
     F.fn, F.g = fn, g
-    # h definition: local initialised from a slot-hash read, inside a loop
-    hdefs = []
-    for n in g.live():
-        d = n.get('decl')
-        if d and d['init'] is not None:
-            ix = _slot_hash_read(d['init'])
-            if ix is not None and ix[0] == 'local' and n['id'] in g.reach_from(n['succ'][0][0] if n['succ'] else g.exit):
-                hdefs.append((n, ('local', d['name'], d['id']), ix))
-    if not hdefs:
+    # the first read of a slot's stored hash inside a loop: fixes the probed index variable and the hash expression
+    found = None
+    for n in sorted(g.live(), key=lambda x: x['id']):
+        if n['expr'] is None or not g.innermost_loop_of(n['id']):
+            continue
+        c = NX.canon(n['expr'])
+        for x in ir.walk(c):
+            ix = _slot_hash_read(x)
+            if ix is not None and ix[0] == 'local':
+                found = (n, x, ix)
+                break
+        if found:
+            break
+    if not found:
         raise AnalysisBroken('%s: no probe loop (read of a slot hash inside a loop) found' % fname)
-    hn, hv, iv = hdefs[0]
-    F.hnode, F.h, F.i = hn, hv, iv
+    hn, HX, iv = found
+    F.hnode, F.h, F.i = hn, ('local', 'H'), iv
     loop_nodes = g.innermost_loop_of(hn['id']) or set()
     F.loop_nodes = loop_nodes
-    # j: the local compared with Probe(...) (directly or through p)
-    jv = None
-    pv = None
+    # is the probe distance of the resident held in a local (p)?  then its uses are shown as P
+    has_p = False
     probe_name = None
     for i in loop_nodes:
         n = g.nodes[i]
@@ -54,31 +60,48 @@ def lookup_fragments(P, fname):
         if d and d['init'] is not None:
             t = ir.top_nocast(d['init'])
             if t[0] == 'call' and (ir.callee_name(t) or '').endswith('_Probe'):
-                pv = ('local', d['name'], d['id'])
+                has_p = True
                 probe_name = ir.callee_name(t)
-    for i in loop_nodes:
+
+    def is_probe(x):
+        return x[0] == 'call' and (ir.callee_name(x) or '').endswith('_Probe')
+    jv = None
+    for i in sorted(loop_nodes):
         n = g.nodes[i]
         if n['kind'] != 'cond':
             continue
-        c = ir.nocast(n['expr'])
-        if c[0] == 'bin' and c[1] in ('<', '>', '<=', '>='):
+        c = NX.canon(n['expr'])
+        if c[0] == 'bin' and c[1] in ('<', '<='):
             for a, b in ((c[2], c[3]), (c[3], c[2])):
-                if a[0] == 'local' and ((b[0] == 'call' and (ir.callee_name(b) or '').endswith('_Probe')) or (pv is not None and b == pv)):
-                    if a != hv and a != iv:
-                        jv = a
-                        if b[0] == 'call':
-                            probe_name = ir.callee_name(b)
+                if a[0] == 'local' and a != iv and is_probe(b):
+                    jv = a
+                    probe_name = probe_name or ir.callee_name(b)
+        if jv is not None:
+            break
     if jv is None:
         raise AnalysisBroken('%s: no probe-distance counter compared with the resident\'s probe distance' % fname)
-    F.j, F.p, F.probe_name = jv, pv, probe_name
-    roles = {iv: ('local', 'I'), jv: ('local', 'J'), hv: ('local', 'H')}
-    if pv is not None:
-        roles[pv] = ('local', 'P')
+    F.j, F.p, F.probe_name = jv, (('local', 'P') if has_p else None), probe_name
 
     def rc(e):
-        e2 = ir.subst(ir.nocast(e), roles)
-        return N.canon(e2)
+        c = NX.canon(e)
+
+        c = ir.rebuild(c, lambda x: ('local', 'H') if x == HX else x)
+
+        def f(x):
+            if x == iv:
+                return ('local', 'I')
+            if x == jv:
+                return ('local', 'J')
+            return x
+        c = ir.rebuild(c, f)
+        if has_p:
+            c = ir.rebuild(c, lambda x: ('local', 'P') if is_probe(x) else x)
+        return ir.canon(c)
     F.rc = rc
+
+    def is_var(lhs, v):
+        t = ir.top_nocast(lhs)
+        return t[0] == 'local' and t[1] == v[1]
     # start values: writes to i / j dominating the loop, outside it
     F.start = {}
     for var, nm in ((iv, 'i'), (jv, 'j')):
@@ -87,7 +110,7 @@ def lookup_fragments(P, fname):
             if n['id'] in loop_nodes or n['expr'] is None:
                 continue
             for ev in util.expr_events(n['expr'], n):
-                if ev['t'] == 'write' and ir.top_nocast(ev['lhs']) == var and ev['op'] == '=' and g.must_pass(hn['id'], [n['id']]):
+                if ev['t'] == 'write' and is_var(ev['lhs'], var) and ev['op'] == '=' and g.must_pass(hn['id'], [n['id']]):
                     ws.append((n, rc(ev['rhs'])))
         # the last dominating write wins (GC_Rem_Ptr reuses `i` for the pending-list loop first)
         ws.sort(key=lambda x: x[0]['id'])
@@ -101,8 +124,8 @@ def lookup_fragments(P, fname):
             F.conds.append((n, rc(n['expr'])))
         if n['expr'] is not None and n['kind'] in ('stmt',):
             for ev in util.expr_events(n['expr'], n):
-                if ev['t'] == 'write' and ir.top_nocast(ev['lhs']) in (iv, jv):
-                    F.writes.append((n, 'i' if ir.top_nocast(ev['lhs']) == iv else 'j', ev['op'], rc(ev['rhs']) if ev['rhs'] is not None else None))
+                if ev['t'] == 'write' and (is_var(ev['lhs'], iv) or is_var(ev['lhs'], jv)):
+                    F.writes.append((n, 'i' if is_var(ev['lhs'], iv) else 'j', ev['op'], rc(ev['rhs']) if ev['rhs'] is not None else None))
     return F
 
 
